@@ -53,6 +53,25 @@ def boot():
     if os.path.exists(p):
         steps = json.load(open(p))
     BOOT['steps'] = steps
+    # executable lines inside functions of pymeeus (denominator of the pre-emption-line measure)
+    lines = set()
+
+    def walk(code, mn):
+        for _, _, ln in code.co_lines():
+            if ln is not None:
+                lines.add((mn, ln))
+        for c in code.co_consts:
+            if hasattr(c, 'co_lines'):
+                walk(c, mn)
+    for mn, m in mods.items():
+        try:
+            top = compile(open(m.__file__).read(), m.__file__, 'exec')
+        except Exception:
+            continue
+        for c in top.co_consts:
+            if hasattr(c, 'co_lines'):
+                walk(c, mn)
+    BOOT['fn_lines'] = len(lines)
     return BOOT
 
 
@@ -186,6 +205,7 @@ def exec_S(source):
         'steps': sim.total_steps,
         'sim_seconds': C.now - t0,
         'sched_keys': sorted(sim.sched_keys),
+        'point_lines': sorted(sim.point_lines),
         'nontrivial': bool(sim.counters.get('fired.nest', 0) + sim.counters.get('fired.cancel', 0) +
                            sim.counters.get('switches', 0) + sum(C.counts.get(k, 0) for k in ('straddle', 'step', 'jump', 'stall'))),
     }
